@@ -386,3 +386,41 @@ Lemma conv_bool_spellings :
   = [true; true; true; true; true; true; true; true; true]
   /\ List.map conv_bool [q "False"; q "false"; q "FALSE"; q "fAlSe"; q "0"] = [false; false; false; false; false].
 Proof. vm_compute. split; reflexivity. Qed.
+
+(* F21 repaired (a52f9e0): empty directories at several depths - next to files, below a directory with
+   files, a directory that only contains an empty directory, a chain - survive the zip round trip,
+   for both listing orders, together with a second job; likewise through tar and a directory *)
+Definition j_e1 := mkjob "42b7b4f2921788ea14dac5566e6f06d0" (sp_a (JInt 1)) "{""a"": 1}"
+  [([q "emptydir"], None); ([q "sub"], None); ([q "sub"; q "g.bin"], Some (q "g")); ([q "sub"; q "e2"], None);
+   ([q "only"], None); ([q "only"; q "inner"], None);
+   ([q "d1"], None); ([q "d1"; q "d2"], None); ([q "d1"; q "d2"; q "d3"], None)].
+Definition j_e2 := mkjob "9f8a8e5ba8c70c774d410a9107e2a32b" (sp_a (JInt 2)) "{""a"": 2}" [([q "emptydir"], None)].
+Definition f21_jobs := [j_e1; j_e2].
+Definition orc_desc (js : list job) : oracle :=
+  {| o_asc := false; o_frepr := []; o_text := []; o_parse := o_parse (orc js) |}.
+
+Lemma f21_repaired :
+  (forall k, In k [KZip; KTar; KDir] ->
+     let o := orc f21_jobs in
+     let e := export_model o f21_jobs k PNone in
+     eo_exn e = None
+     /\ (let i := import_model o SchNone (eo_art e) (dst_init []) in
+         io_exn i = None /\ fs_eqb (io_dst i) (expected_dst [] f21_jobs) = true))
+  /\ (let o := orc_desc f21_jobs in
+      let e := export_model o f21_jobs KZip PNone in
+      eo_exn e = None
+      /\ (let i := import_model o SchNone (eo_art e) (dst_init []) in
+          io_exn i = None /\ fs_eqb (io_dst i) (expected_dst [] f21_jobs) = true))
+  /\ (* a single job, exported to the archive root, that holds nothing but nested empty directories *)
+     (let j := mkjob "42b7b4f2921788ea14dac5566e6f06d0" (sp_a (JInt 1)) "{""a"": 1}" [([q "only"], None); ([q "only"; q "inner"], None)] in
+      let o := orc [j] in
+      let e := export_model o [j] KZip PNone in
+      eo_art e = AZip [(FN_SP, q "{""a"": 1}"); (q "only/inner/", [])]
+      /\ (let i := import_model o SchNone (eo_art e) (dst_init []) in
+          io_exn i = None /\ fs_eqb (io_dst i) (expected_dst [] [j]) = true)).
+Proof.
+  split; [|split].
+  - intros k Hk. destruct Hk as [<-|[<-|[<-|[]]]]; vm_compute; repeat split.
+  - vm_compute. repeat split.
+  - vm_compute. repeat split.
+Qed.
